@@ -203,6 +203,8 @@ Definition judge_cfloat (cfg : list Z) (op : Z) (args res : list Z) : verdict :=
                  else exact [a] true
     | _ => exact [a] true
     end else
+  if Z.eqb op OP_conv then    (* cfloat -> cfloat: cfg = source cfg (6 entries) ++ target cfg *)
+    (let c2 := cfg_of (skipn 6 cfg) in let e := cf_encode c2 da in mkV (one && cf_accept c2 true e r) [e] true) else
   if Z.eqb op OP_to_int then   (* args: width, bits; truncation toward zero when it fits *)
     match cf_decode c b with
     | Fin s q => let z := (if s then - (Qnum q / Zpos (Qden q)) else Qnum q / Zpos (Qden q)) in
